@@ -137,5 +137,20 @@ def run_prog(case):
         tb = traceback.extract_tb(e.__traceback__)
         st, n = 'exc', -1
         exc = [type(e).__name__, tb[-1].name, str(e)[:120]]
-    out = ''.join(l2s(e[1]) for e in p.events if e[0] == 'terminal_print')
-    return {'out': out, 'outcome': outcome(m.cpu), 'status': st, 'exc': exc}
+    # the text printed by PRINT statements: the prompt INPUT writes ('' then '? ')
+    # just before it asks for a line is left out
+    chunks = []
+    for e in p.events:
+        if e[0] == 'terminal_print':
+            chunks.append(l2s(e[1]))
+        elif e[0] == 'terminal_input':
+            n = 0
+            while chunks and chunks[-1] in ('', '? ') and n < 2:
+                chunks.pop()
+                n += 1
+    if st == 'input-exhausted':
+        n = 0
+        while chunks and chunks[-1] in ('', '? ') and n < 2:
+            chunks.pop()
+            n += 1
+    return {'out': ''.join(chunks), 'outcome': outcome(m.cpu), 'status': st, 'exc': exc}
